@@ -110,14 +110,14 @@ def gen_cases(ctx):
                     continue
                 cfg = CONFIGS[(idx * 7 + j * 13) % len(CONFIGS)]
                 rr = ctx.rng(9, 1, idx)
-                yield {"kind": "pattern", "K": K, "F": F, "pattern": list(pattern), "cfg": cfg, "frames": pattern_history(rr, K, F, pattern)}
+                yield {"kind": "pattern", "K": K, "F": F, "pattern": list(pattern), "cfg": cfg, "frames": pattern_history(rr, K, F, pattern), "tuple": bool(idx % 5 == 4)}
     for i in range(N_RANDOM[ctx.tier]):
         if i % ctx.nshards != ctx.shard:
             continue
         rr = ctx.rng(9, 2, i)
         frames, style = random_history(rr)
         cfg = CONFIGS[int(rr.integers(0, len(CONFIGS)))]
-        yield {"kind": "random:" + style, "cfg": cfg, "frames": frames}
+        yield {"kind": "random:" + style, "cfg": cfg, "frames": frames, "tuple": bool(i % 5 == 4)}
 
 
 def directed(ctx):
@@ -158,7 +158,10 @@ def classify_exc(cfg, exc):
 def check(ctx, case):
     cfg, frames = case["cfg"], case["frames"]
     thr = cfg["instance_score_threshold"]
-    records, exc, tracker = tc.run_history(cfg, frames)
+    as_tuple = bool(case.get("tuple"))  # every fifth history hands each frame's detections over as a tuple
+    if as_tuple:
+        ctx.count("histories_with_tuple_frames")
+    records, exc, tracker = tc.run_history(cfg, frames, container=tuple if as_tuple else list)
     ctx.count("histories")
     ctx.count("track_calls", len(records))
     small = {"kind": case["kind"], "cfg": cfg, "frames": frames}
